@@ -871,6 +871,17 @@ fn print_precision_case<R: ModeTag, const B: Word>(rec: &mut Rec, v: &FV, k: usi
             }
             Err(pm) => rec.fail(format!("{}|FBig::fmt {{:.ke}}|panic|B{},{}", P, B, class), case("e"), pm, format!("{:?}", want)),
         }
+        // the upper-case exponent form must print the same digits (only letter case may differ)
+        rec.step();
+        match (guard(|| format!("{:.*E}", k, f)), guard(|| format!("{:.*e}", k, f))) {
+            (Ok(u), Ok(l)) => {
+                if u.to_lowercase() != l.to_lowercase() {
+                    rec.fail(format!("{}|FBig::fmt {{:.kE}}|differs-from-lower-case-form|{}", P, R::MODE.name()), case("E"), format!("{:?}", u), format!("{:?} (upper-cased)", l));
+                }
+            }
+            (Err(pm), Ok(_)) => rec.fail(format!("{}|FBig::fmt {{:.kE}}|panic|B{}", P, B), case("E"), pm, "same text as {:.ke}"),
+            _ => {}
+        }
         if !v.s.is_zero() {
             rec.nontrivial();
         }
@@ -931,6 +942,9 @@ fn with_precision_case<R: ModeTag, const B: Word>(rec: &mut Rec, v: &FV, tp: usi
                 if r.precision() != tp {
                     rec.fail(format!("{}|FBig::with_precision|result-precision|B{}", P, B), case(), format!("precision {}", r.precision()), format!("{}", tp));
                 }
+                if tp != 0 && rv.digits() > tp {
+                    rec.fail(format!("{}|FBig::with_precision|not-rounded|{}", P, srcname), case(), format!("{} has {} digits", rv.show(), rv.digits()), format!("at most {} digits", tp));
+                }
                 if tp != 0 && representable(&v.rat, B as u32, tp) {
                     hit_m(rec, R::MODE, "representable-in-target");
                 }
@@ -941,6 +955,49 @@ fn with_precision_case<R: ModeTag, const B: Word>(rec: &mut Rec, v: &FV, tp: usi
             rec.nontrivial();
         }
         rec.sample(|| case());
+    }
+}
+
+/// with_precision on long significands next to a power of the base (where digit counts estimated
+/// from the bit length are off by one): patterns x every target precision around the digit count
+fn with_precision_long<const B: Word>(ctx: &mut Ctx, lens: &[usize]) {
+    let b = BigInt::from(B);
+    let mut u: Vec<(BigInt, i64)> = vec![];
+    for &l in lens {
+        let top: BigInt = num_traits::pow(b.clone(), l - 1);
+        let full: BigInt = &top * &b - 1;
+        let mut pats = vec![full.clone(), &full - 1, &full - (B as i64 - 2), &top + 1, &full / 2 + 1];
+        for k in [l - 1, l / 2 + 1] {
+            if k >= 1 && k < l {
+                pats.push((num_traits::pow(b.clone(), k) - 1) * num_traits::pow(b.clone(), l - k) + 1);
+            }
+        }
+        for s in pats {
+            if !(&s % &b).is_zero() {
+                u.push((s.clone(), 0));
+                u.push((-s, -(l as i64) - 3));
+            }
+        }
+    }
+    let vals = fvs(B as u32, &u);
+    let nv = vals.len() as u64;
+    let name = format!("with_precision.long.B{}", B);
+    let vr = &vals;
+    // target precisions relative to the digit count
+    const REL: [i64; 8] = [-1, -2, -3, 0, 1, 3, i64::MIN, i64::MIN + 1];
+    ctx.sweep(&name, nv * REL.len() as u64 * 2 * 6, |i, rec| {
+        let [iv, it, unl, im] = unflatten(i, [nv, REL.len() as u64, 2, 6]);
+        let v = &vr[iv];
+        let tp = match REL[it] {
+            i64::MIN => 1,
+            x if x == i64::MIN + 1 => v.digits / 2,
+            d => (v.digits as i64 + d).max(1) as usize,
+        };
+        by_mode!(im, with_precision_case, [B], (rec, v, tp, unl, v.digits));
+    });
+    for m in MODES {
+        require_m(ctx, &name, m, &["exact", "shrinks"]);
+        require_m(ctx, &name, m, inexact_classes(m));
     }
 }
 
@@ -1411,6 +1468,15 @@ pub fn run(ctx: &mut Ctx) {
     with_precision_sweep::<10>(ctx, w10, ew);
     with_precision_sweep::<3>(ctx, 3, ew);
     with_precision_sweep::<16>(ctx, 2, ew);
+
+    let (wl2, wl10): (Vec<usize>, Vec<usize>) = if quick { (vec![19, 20, 21, 24, 33, 64, 65], vec![6, 7, 8, 9, 10, 20]) } else { (vec![8, 19, 20, 21, 22, 24, 25, 32, 33, 53, 64, 65, 128, 129, 200], vec![5, 6, 7, 8, 9, 10, 11, 19, 20, 21, 39, 40, 78]) };
+    ctx.bound("with_precision.long.digit_counts", serde_json::json!({"B2": wl2, "B10": wl10, "B3(thorough)": [13, 14, 20, 41], "B16(thorough)": [5, 6, 16, 17]}));
+    with_precision_long::<2>(ctx, &wl2);
+    with_precision_long::<10>(ctx, &wl10);
+    if !quick {
+        with_precision_long::<3>(ctx, &[13, 14, 20, 41]);
+        with_precision_long::<16>(ctx, &[5, 6, 16, 17]);
+    }
 
     // ---- (d) base conversion
     ctx.bound("conv.small_exp_threshold", small_exp_threshold());
